@@ -4,6 +4,7 @@
 mod fsys;
 mod model;
 mod ops;
+mod simlayer;
 mod uring;
 
 use std::time::Duration;
@@ -182,6 +183,25 @@ fn configs(prop: &str, tier: Tier) -> Vec<FsCfg> {
                     block: None,
                 },
             ];
+            // resizes in both directions around data syncs (shrink-then-grow must zero the gap)
+            v.push(FsCfg {
+                name: "durable-resize".into(),
+                prop: Prop::C07,
+                letters: vec![
+                    Op::Create(0),
+                    Op::WriteAt(0, 0, 0, Front::Std),
+                    Op::SetLen(0, 1),
+                    Op::SetLen(0, 4),
+                    Op::OpenTrunc(0),
+                    Op::SyncAll(0, Front::Std),
+                    Op::SyncData(0),
+                    Op::SyncDir(3),
+                    Op::Crash,
+                ],
+                depth: tier.pick(8, 9),
+                sync_prob: 0.0,
+                block: None,
+            });
             // the write-temp / fsync / rename / fsync-dir publish idiom in one directory
             v.push(FsCfg {
                 name: "durable-publish".into(),
@@ -298,6 +318,15 @@ fn main() {
             let mut rep = Report::new("C07", tier, "fault_enumeration", "fsx");
             rep.rule = "explicit-state BFS over operation histories in which CRASH is a transition enabled in every state (so a crash follows every prefix of every history, and crash-continue-crash cycles occur); post-crash sweep compared with the reference durability image; torn-write survival vectors and background-sync coins are enumerated through the scripted Fs::rng".into();
             run_fs(&mut rep, configs("C07", tier), wall, cap);
+            {
+                // the same subject through Sim::crash / Sim::bounce in a running simulation
+                let mut d = vx_core::DfsConfig::new("through-sim-crash-bounce", 0);
+                d.wall = wall;
+                let thorough = tier == Tier::Thorough;
+                let st = vx_core::explore_dfs(&d, move |ch| simlayer::scenario(ch, thorough));
+                rep.violations.extend(st.violations);
+                rep.add_part(st.part);
+            }
             rep.finish();
         }
         "C18" => {
@@ -325,6 +354,25 @@ fn main() {
 
 fn replay(path: &str) {
     let (prop, scenario, choices) = vx_core::report::load_replay(path);
+    if scenario.starts_with("c07-sim") {
+        println!("replaying {prop}: {scenario}");
+        let mut ch = vx_core::Chooser::from_choices(&choices);
+        let e = simlayer::scenario(&mut ch, scenario.contains("tier=thorough"));
+        for l in ch.describe() {
+            println!("  choice {l}");
+        }
+        match e.violation {
+            Some(v) => {
+                for a in &v.actions {
+                    println!("  {a}");
+                }
+                println!("VIOLATION clause={} : {}", v.clause, v.detail);
+                std::process::exit(1);
+            }
+            None => println!("no violation on this execution"),
+        }
+        return;
+    }
     let name = scenario.split_whitespace().next().unwrap_or("").to_string();
     if prop == "C18" {
         let mut cs = c18_configs(Tier::Thorough);
